@@ -5,7 +5,8 @@
    name that some source provides.  TS3 composes it with the reader, the list decoder, the dependency parser
    and GetPossibilities so that the tie runs the whole path from .dsc text. *)
 From Coq Require Import List Ascii String Bool Arith Lia Permutation.
-Require Import GS TS TS2 TS3.
+Require Import GS TS TS2 TS3 TS4.
+Require R2 R2u L10.
 Import ListNotations.
 
 (* the order is a permutation of the input in which every source comes after the provider of each binary it
@@ -34,6 +35,34 @@ Theorem C19_sort_sound : forall g l, NoDup (nodes g) -> sort g = SOk l -> Permut
 Proof. exact sort_sound. Qed.
 Theorem C19_sort_cycle : forall g, wf_graph g -> sort g = SCycle -> forall t, ~ topological g t.
 Proof. exact sort_cycle. Qed.
+
+(* ---- from .dsc TEXT ("for sources parsed from ordinary multi-binary .dsc files") ----
+   order_texts = ParseDsc on every text (deb822 reader, Binary as a comma list, the dependency parser and
+   GetPossibilities for the architecture on the three build-dependency fields), then OrderDSCForBuild *)
+Theorem C19_order_from_dsc_texts : forall arch ts names, order_texts arch ts = OOrder names ->
+  exists ds l, dscs_of_texts arch ts = Some ds /\ List.length ds = List.length ts /\
+    names = map (fun i => d_source (nth i ds no_dsc)) l /\
+    Permutation l (seq 0 (List.length ts)) /\
+    forall l1 i l2, l = l1 ++ i :: l2 -> forall b t, In b (picked (d_src (nth i ds no_dsc))) -> src_of (map d_src ds) b = Some t ->
+      In t l1 /\ In b (binaries (d_src (nth t ds no_dsc))).
+Proof. exact C19_order_from_texts. Qed.
+Theorem C19_cycle_from_dsc_texts : forall arch ts, order_texts arch ts = OCycle ->
+  exists ds, dscs_of_texts arch ts = Some ds /\ forall t, ~ topological (build_graph (map d_src ds)) t.
+Proof. exact C19_cycle_from_texts. Qed.
+Theorem C19_dsc_texts_never_out_of_fuel : forall arch ts, order_texts arch ts <> OFuel.
+Proof. exact C19_texts_never_out_of_fuel. Qed.
+(* what one .dsc contributes: Source, the trimmed elements of Binary, and the names picked from Build-Depends,
+   Build-Depends-Arch and Build-Depends-Indep, in this order *)
+Theorem C19_what_a_dsc_contributes : forall arch text d, dsc_of_text arch text = Some d ->
+  exists p rest a b c, R2u.read_all_u text = Some (p :: rest) /\
+    picked_of_field arch (R2.lookup (s "Build-Depends") (R2.values p)) = Some a /\
+    picked_of_field arch (R2.lookup (s "Build-Depends-Arch") (R2.values p)) = Some b /\
+    picked_of_field arch (R2.lookup (s "Build-Depends-Indep") (R2.values p)) = Some c /\
+    picked (d_src d) = a ++ b ++ c /\ d_source d = R2.lookup (s "Source") (R2.values p) /\
+    (R2.mem (s "Binary") (R2.values p) = true -> binaries (d_src d) = L10.decode_list comma strip4 (R2.lookup (s "Binary") (R2.values p))).
+Proof. exact C19_dsc_of_text. Qed.
+Print Assumptions C19_order_from_dsc_texts.
+Print Assumptions C19_what_a_dsc_contributes.
 
 Example C19_instance :
   order_texts {| M6.abi := s "gnu"; M6.os := s "linux"; M6.cpu := s "amd64" |}
